@@ -90,7 +90,9 @@ def gen(tier, rng):
     # is a plain convolution; recoloured transparent pixels outside the box never show)
     for pt in ALPHA_PTS:
         isf = rz.PT[pt]["comp"] == "f32"
-        for (sw, sh, dw, dh, box) in ((28, 24, 3, 3, (8, 6, 12, 12)), (40, 9, 4, 3, (14, 3, 12, 3)), (9, 36, 3, 2, (3, 12, 3, 10))):
+        # ... and enlargements of a crop deep inside the source (the kernel is not stretched then: radius = support)
+        for (sw, sh, dw, dh, box) in ((28, 24, 3, 3, (8, 6, 12, 12)), (40, 9, 4, 3, (14, 3, 12, 3)), (9, 36, 3, 2, (3, 12, 3, 10)),
+                                      (12, 16, 9, 11, (3, 6, 6, 4)), (16, 10, 13, 4, (5, 4, 5, 3))):
             for (alg, flt, m) in (("conv", "Lanczos3", 1), ("conv", "Bilinear", 1), ("ss", "CatmullRom", 2)):
                 n += 1
                 if tier == "quick" and rz.pick(n, 124, [0, 1]):
